@@ -571,3 +571,227 @@ def check_cfg_words(ctx, rep, f, rule=RULE + '.M18'):
         rep.undecided(rule, f, 'def ' + f.name, 'outside the evaluator: {}'.format(e))
         return
     rep.holds(rule, f, 'def ' + f.name, 'on {} runs (five model grammars in Chomsky normal form, n = 0..4) the result is exactly the set of words up to length n that the start variable derives'.format(cases))
+
+
+# ---- NFA acceptance, epsilon closure and the subset construction on model NFAs -----------------------------------------------
+
+_ACC_NFAS = dict(_NFAS)
+_ACC_NFAS.update({
+    'epsilon 3-cycle with an exit': (['A', 'B', 'C'], ['x'], [('A', '', 'B'), ('B', '', 'C'), ('C', '', 'A'), ('A', 'x', 'C')], 'A', ['B'], ''),
+    'epsilon 3-cycle entered late': (['I', 'A', 'B', 'C', 'D'], ['x', 'y'], [('I', 'x', 'C'), ('A', '', 'B'), ('B', '', 'C'), ('C', '', 'A'), ('B', 'y', 'D')], 'I', ['D'], ''),
+    'no final state': (['u0', 'u1'], ['a'], [('u0', 'a', 'u1'), ('u1', '', 'u0')], 'u0', [], ''),
+    'total and nondeterministic (contains aa)': (['0', '1', '2'], ['a', 'b'], [('0', 'a', '0'), ('0', 'b', '0'), ('0', 'a', '1'), ('1', 'a', '2'), ('1', 'b', '0'), ('2', 'a', '2'), ('2', 'b', '2')], '0', ['2'], ''),
+    'unreachable final state': (['v0', 'v1', 'v2'], ['a'], [('v0', 'a', 'v0'), ('v2', 'a', 'v1')], 'v0', ['v1'], ''),
+    'entry with an empty target set': (['w0', 'w1'], ['a', 'b'], [('w0', 'a', 'w1')], 'w0', ['w1'], ''),
+})
+
+
+def _closure_ref(N, S):
+    f = N._f
+    S = set(S)
+    todo = list(S)
+    while todo:
+        q = todo.pop()
+        for q1 in f['delta'].get((q, f['epsilon']), ()):
+            if q1 not in S:
+                S.add(q1)
+                todo.append(q1)
+    return S
+
+
+def check_nfa_acceptance(ctx, rep, f_acc, f_clo, rule=RULE + '.M19'):
+    """nfa_accepts_word on model NFAs and all words up to length 4 against the definition (a run exists), and epsilon_closure of
+    every state and of a pair of states against reachability by epsilon moves.  The models contain epsilon cycles of length 3
+    with an exit (entered at the start and after a letter), partial transition relations, an entry whose target set is empty,
+    no final state, an unreachable final state, nondeterminism, a second epsilon symbol."""
+    cases = 0
+    try:
+        for name, spec in _ACC_NFAS.items():
+            for order in ('asc', 'desc'):
+                N = _nfa(*spec)
+                if name == 'entry with an empty target set':
+                    N._f['delta'][('w1', 'b')] = set()
+                snap = _snapshot(N)
+                alphabet = set(N._f['Sigma'])
+                want = _nfa_lang(N, alphabet, 4)
+                for S in [{q} for q in sorted(N._f['Q'])] + [set(sorted(N._f['Q'])[:2])]:
+                    for arg in ([next(iter(S))] if len(S) == 1 else []) + [set(S)]:
+                        ok, got = _run(rule, rep, f_clo, lambda: _interp(ctx, order, classes={'NFA': _nfa_class}).call(f_clo, [N, arg]), 'on the NFA "{}" and {}'.format(name, sorted(S)))
+                        if not ok:
+                            return
+                        if not isinstance(got, (set, frozenset)):
+                            raise Unsupported('the closure is not a set')
+                        cases += 1
+                        if set(got) != _closure_ref(N, S):
+                            rep.violates(rule, f_clo, 'def ' + f_clo.name, 'on the NFA "{}" the epsilon closure of {} is {} instead of {}'.format(name, sorted(S), sorted(got), sorted(_closure_ref(N, S))))
+                            return
+                for k in range(5):
+                    for w in itertools.product(sorted(alphabet), repeat=k):
+                        word = ''.join(w)
+                        ok, got = _run(rule, rep, f_acc, lambda: _interp(ctx, order, classes={'NFA': _nfa_class}, max_steps=200000).call(f_acc, [N, word]), 'on the NFA "{}" and the word {!r}'.format(name, word))
+                        if not ok:
+                            return
+                        if not isinstance(got, bool):
+                            raise Unsupported('the answer is not a boolean')
+                        cases += 1
+                        if got != (word in want):
+                            rep.violates(rule, f_acc, 'def ' + f_acc.name, 'on the NFA "{}" the word {!r} is {} although {} accepting run exists'.format(name, word, 'accepted' if got else 'rejected', 'an' if word in want else 'no'))
+                            return
+                if _snapshot(N) != snap:
+                    rep.violates(rule, f_acc, 'def ' + f_acc.name, 'on the NFA "{}" the operand is modified (its transition relation, states or final states)'.format(name))
+                    return
+    except (Unsupported, RecursionError) as e:
+        rep.undecided(rule, f_acc, 'def ' + f_acc.name, 'outside the evaluator: {}'.format(e))
+        return
+    rep.holds(rule, f_acc, 'def ' + f_acc.name, 'on {} evaluations ({} model NFAs: epsilon cycles of length 3 with an exit, partial relations, an empty target set, no final state, an unreachable final state, nondeterminism, a second epsilon symbol; all words up to length 4; closures of every state and of a pair; two iteration orders of sets) the answers are those of the definition and the operand is untouched'.format(cases, len(_ACC_NFAS)))
+
+
+def check_subset_construction(ctx, rep, f, rule=RULE + '.M20'):
+    """nfa_to_dfa on the same model NFAs: the result is a valid TOTAL DFA over the alphabet of the NFA, accepts the same words up
+    to length 4, every state of it is reachable, and the operand is untouched."""
+    cases = 0
+    try:
+        for name, spec in _ACC_NFAS.items():
+            for order in ('asc', 'desc'):
+                N = _nfa(*spec)
+                if name == 'entry with an empty target set':
+                    N._f['delta'][('w1', 'b')] = set()
+                snap = _snapshot(N)
+                Sigma = set(N._f['Sigma'])
+                want = _nfa_lang(N, Sigma, 4)
+                ok, got = _run(rule, rep, f, lambda: _interp(ctx, order, classes={'NFA': _nfa_class, 'DFA': _dfa_class}, max_steps=400000).call(f, [N]), 'on the NFA "{}"'.format(name))
+                if not ok:
+                    return
+                if not isinstance(got, Obj) or got._cls != 'DFA':
+                    raise Unsupported('the result is not a DFA built by the constructor')
+                cases += 1
+                g = got._f
+                if set(g['Sigma']) != Sigma:
+                    rep.violates(rule, f, 'def ' + f.name, 'on the NFA "{}" the alphabet of the result is {} instead of {}'.format(name, sorted(g['Sigma']), sorted(Sigma)))
+                    return
+                if g['q0'] not in g['Q'] or not set(g['F']) <= set(g['Q']) or any((q, a) not in g['delta'] or g['delta'][q, a] not in g['Q'] for q in g['Q'] for a in Sigma):
+                    rep.violates(rule, f, 'def ' + f.name, 'on the NFA "{}" the result is not a valid total DFA (a missing transition, or the initial state / a final state / a target outside the states)'.format(name))
+                    return
+                for k in range(5):
+                    for w in itertools.product(sorted(Sigma), repeat=k):
+                        if _accepts(g, w) != (''.join(w) in want):
+                            rep.violates(rule, f, 'def ' + f.name, 'on the NFA "{}" the DFA {} the word {!r}, the NFA does not'.format(name, 'accepts' if _accepts(g, w) else 'rejects', ''.join(w)))
+                            return
+                if _reach(g['delta'], Sigma, g['q0']) != set(g['Q']):
+                    rep.violates(rule, f, 'def ' + f.name, 'on the NFA "{}" the result has unreachable states: {}'.format(name, sorted(set(g['Q']) - _reach(g['delta'], Sigma, g['q0']))))
+                    return
+                if _snapshot(N) != snap:
+                    rep.violates(rule, f, 'def ' + f.name, 'on the NFA "{}" the operand is modified'.format(name))
+                    return
+    except (Unsupported, RecursionError) as e:
+        rep.undecided(rule, f, 'def ' + f.name, 'outside the evaluator: {}'.format(e))
+        return
+    rep.holds(rule, f, 'def ' + f.name, 'on {} runs ({} model NFAs under two iteration orders of sets) the result is a valid total DFA over the same alphabet with the same words up to length 4 and only reachable states; the operand is untouched'.format(cases, len(_ACC_NFAS)))
+
+
+# ---- the DFA closure constructions on model DFAs --------------------------------------------------------------------------------
+
+_C_DFAS = {
+    'even a': ({'e', 'o'}, {'a', 'b'}, {('e', 'a'): 'o', ('e', 'b'): 'e', ('o', 'a'): 'e', ('o', 'b'): 'o'}, 'e', {'e'}),
+    'ends in b': ({'p', 'q'}, {'a', 'b'}, {('p', 'a'): 'p', ('p', 'b'): 'q', ('q', 'a'): 'p', ('q', 'b'): 'q'}, 'p', {'q'}),
+    'a, ab, abb (finite, with extensions)': ({'0', '1', '2', '3', 'x'}, {'a', 'b'}, {('0', 'a'): '1', ('0', 'b'): 'x', ('1', 'a'): 'x', ('1', 'b'): '2', ('2', 'a'): 'x', ('2', 'b'): '3', ('3', 'a'): 'x', ('3', 'b'): 'x', ('x', 'a'): 'x', ('x', 'b'): 'x'}, '0', {'1', '2', '3'}),
+    'empty word and b* (initial state final)': ({'s', 't'}, {'a', 'b'}, {('s', 'a'): 't', ('s', 'b'): 's', ('t', 'a'): 't', ('t', 'b'): 't'}, 's', {'s'}),
+    'nothing': ({'z'}, {'a', 'b'}, {('z', 'a'): 'z', ('z', 'b'): 'z'}, 'z', set()),
+}
+_C_PAIRS = [('even a', 'ends in b'), ('ends in b', 'even a'), ('a, ab, abb (finite, with extensions)', 'empty word and b* (initial state final)'), ('nothing', 'even a'), ('even a', 'even a')]
+
+
+def _dfa_lang(D, k):
+    f = _fields(D)
+    out = set()
+    for n in range(k + 1):
+        for w in itertools.product(sorted(f['Sigma']), repeat=n):
+            q = f['q0']
+            for a in w:
+                q = f['delta'].get((q, a))
+                if q is None:
+                    break
+            if q is not None and q in f['F']:
+                out.add(''.join(w))
+    return out
+
+
+def _all_words(Sigma, k):
+    return {''.join(w) for n in range(k + 1) for w in itertools.product(sorted(Sigma), repeat=n)}
+
+
+def check_dfa_constructions(ctx, rep, funcs, rule=RULE + '.M21'):
+    """the DFA closure constructions on model DFAs (a finite language with extensions, an initial state that is final, the empty
+    language, two infinite ones): the result is a valid automaton whose words up to length 4 are exactly the complement /
+    union / intersection / symmetric difference / mirror image / prefix-free part / non-extendable part of the operands'
+    (for the last two the reference looks at words up to length 6 of a finite language); operands untouched.
+    funcs: name -> FuncInfo for complement, union, intersection, symmetric_difference, reverse, no_prefix, no_extend."""
+    K = 4
+    classes = {'NFA': _nfa_class, 'DFA': _dfa_class}
+    total = 0
+    for op, f in funcs.items():
+        cases = 0
+        try:
+            jobs = _C_PAIRS if op in ('union', 'intersection', 'symmetric_difference') else [(n,) for n in _C_DFAS]
+            bad = False
+            for names in jobs:
+                for order in ('asc', 'desc'):
+                    Ds = [_mk(*_C_DFAS[n]) for n in names]
+                    snaps = [(set(D._f['Q']), dict(D._f['delta']), set(D._f['F']), D._f['q0'], set(D._f['Sigma'])) for D in Ds]
+                    Sigma = set(Ds[0]._f['Sigma'])
+                    Ls = [_dfa_lang(D, K + 2) for D in Ds]
+                    U = _all_words(Sigma, K + 2)
+                    if op == 'complement':
+                        want = U - Ls[0]
+                    elif op == 'union':
+                        want = Ls[0] | Ls[1]
+                    elif op == 'intersection':
+                        want = Ls[0] & Ls[1]
+                    elif op == 'symmetric_difference':
+                        want = Ls[0] ^ Ls[1]
+                    elif op == 'reverse':
+                        want = {w[::-1] for w in Ls[0]}
+                    elif op == 'no_prefix':
+                        want = {w for w in Ls[0] if not any(w[:i] in Ls[0] for i in range(len(w)))}
+                    else:
+                        # non-extendable: exact for the finite model (its longest word has length 3) and for languages where every word has an extension one or two letters on
+                        want = {w for w in Ls[0] if len(w) <= K and not any(v != w and v.startswith(w) for v in Ls[0])}
+                    want = {w for w in want if len(w) <= K}
+                    what = 'on ' + ' and '.join('"{}"'.format(n) for n in names)
+                    ok, got = _run(rule, rep, f, lambda: _interp(ctx, order, classes=classes, max_steps=400000).call(f, Ds), what)
+                    if not ok:
+                        bad = True
+                        break
+                    if not isinstance(got, Obj) or got._cls not in ('DFA', 'NFA'):
+                        raise Unsupported('the result is not an automaton built by a constructor')
+                    cases += 1
+                    g = got._f
+                    if got._cls == 'DFA':
+                        valid = g['q0'] in g['Q'] and set(g['F']) <= set(g['Q']) and all(p in g['Q'] and a in g['Sigma'] and q in g['Q'] for (p, a), q in dict(g['delta']).items())
+                        have = _dfa_lang(got, K)
+                    else:
+                        delta = {k: set(v) for k, v in dict(g['delta']).items() if v}
+                        valid = g['q0'] in g['Q'] and set(g['F']) <= set(g['Q']) and g['epsilon'] not in set(g['Sigma']) and all(p in g['Q'] and set(v) <= set(g['Q']) and (a == g['epsilon'] or a in g['Sigma']) for (p, a), v in delta.items())
+                        have = _nfa_lang(Obj('NFA', Q=set(g['Q']), Sigma=set(g['Sigma']), delta=delta, q0=g['q0'], F=set(g['F']), epsilon=g['epsilon']), Sigma, K)
+                    if not valid or set(g['Sigma']) != Sigma:
+                        rep.violates(rule, f, 'def ' + f.name, '{} the result is not a valid automaton over the alphabet of the operands'.format(what))
+                        bad = True
+                        break
+                    if have != want:
+                        extra, missing = sorted(have - want), sorted(want - have)
+                        rep.violates(rule, f, 'def ' + f.name, '{} the words up to length {} of the result are not the {}: {}'.format(
+                            what, K, op.replace('_', ' '), 'it accepts {!r}'.format(extra[0]) if extra else 'it rejects {!r}'.format(missing[0])))
+                        bad = True
+                        break
+                    if [(set(D._f['Q']), dict(D._f['delta']), set(D._f['F']), D._f['q0'], set(D._f['Sigma'])) for D in Ds] != snaps:
+                        rep.violates(rule, f, 'def ' + f.name, '{} an operand is modified'.format(what))
+                        bad = True
+                        break
+                if bad:
+                    break
+            if not bad:
+                rep.holds(rule, f, 'def ' + f.name, 'on {} runs (model DFAs: a finite language with extensions, an initial state that is final, the empty language, two infinite ones; two iteration orders of sets) the result is a valid automaton with exactly the words up to length {} of the {}; operands untouched'.format(cases, K, op.replace('_', ' ')))
+                total += 1
+        except (Unsupported, RecursionError) as e:
+            rep.undecided(rule, f, 'def ' + f.name, 'outside the evaluator: {}'.format(e))
+    return total
